@@ -234,6 +234,8 @@ def _check_score_expr(ctx, f, kind, key, score, loopvars, stmt, raw=None):
                   'the score is not get_sim_function(sim_measure_type)(<left tokens of the candidate>, <right tokens of '
                   'the current row>): `%s`' % U(inner)[:160], stmt, sample=U(inner)[:120])
     elif kind == 'oc':
+        from .cand import _norm_select
+        score = _norm_select(score)
         has_round = any(isinstance(n, ast.Call) and call_name(n) == 'round' for n in ast.walk(score))
         ctx.check('R-VERIFY/round', f, key, not has_round,
                   'overlap-coefficient scores are reported unrounded, found `%s`' % U(score)[:100], stmt,
@@ -305,14 +307,14 @@ def _check_candidate_row(ctx, f, view, key, loop, loopvars, ps, fin, sink):
         return
     tables = sorted(set(_index_tables(repo, f, it)))
     lrows = []
-    for call, st in ps.events:
-        if call_name(call) == 'get_output_row_from_tables' and call.args:
-            lrows.append(fin(call.args[0]))
-    for e, st in ps.env.items():
-        pass
-    for v in ps.env.values():
-        if isinstance(v, ast.List) and v.elts and isinstance(v.elts[0], ast.Subscript):
-            lrows.append(fin(v.elts[0].value))
+    # every `<table>[cand]` on the path (helper arguments, literal rows): a row selected by the candidate id
+    exprs = [call for call, st in ps.events] + list(ps.env.values())
+    for e in exprs:
+        for n in ast.walk(e):
+            if isinstance(n, ast.Subscript) and isinstance(n.slice, ast.Name) and n.slice.id == cand:
+                x = fin(n)
+                if isinstance(x, ast.Subscript) and isinstance(x.value, ast.Name) and x.value.id in f.params:
+                    lrows.append(x)
     if f.qual == '_apply_matcher_split':
         return
     ok = len(tables) == 1 and bool(lrows) and all(U(r) == '%s[%s]' % (tables[0], cand) for r in lrows)
